@@ -105,6 +105,23 @@ class Body:
     def __repr__(self):
         return "<Body %s>" % self.path
 
+    def capture_exprs(self):
+        """For a closure body: the operand expressions of the closure aggregate in the body that
+        creates it (the values captured for upvars 0..n), else None."""
+        if getattr(self, "_captures", False) is not False:
+            return self._captures
+        self._captures = None
+        if self.kind != "Closure":
+            return None
+        parent = self.raw.get("parent")
+        cands = [b for b in self.facts.by_path.get(parent, []) if b.promoted is None] if parent else []
+        for pb in cands:
+            for bi, si, s, is_term in pb.locations():
+                if not is_term and s["k"] == "assign" and s["rv"]["k"] == "agg" and s["rv"].get("ak") == "closure" and s["rv"].get("closure") == self.path:
+                    self._captures = [pb.expr_of_operand(o) for o in s["rv"]["ops"]]
+                    return self._captures
+        return None
+
     # ---- CFG ---------------------------------------------------------
     def term(self, bb):
         return self.blocks[bb]["term"]
@@ -290,9 +307,9 @@ class Body:
             elif kk == "field":
                 # closure upvars
                 if isinstance(e, (Var,)) and e.local == 1 and self.kind == "Closure" and pr["i"] in self.upvar_names:
-                    e = Upvar(self.upvar_names[pr["i"]], pr["i"], pr.get("ty"))
+                    e = Upvar(self.upvar_names[pr["i"]], pr["i"], pr.get("ty"), self)
                 elif isinstance(e, Deref) and isinstance(e.x, Var) and e.x.local == 1 and self.kind == "Closure" and pr["i"] in self.upvar_names:
-                    e = Upvar(self.upvar_names[pr["i"]], pr["i"], pr.get("ty"))
+                    e = Upvar(self.upvar_names[pr["i"]], pr["i"], pr.get("ty"), self)
                 else:
                     e = Field(e, pr.get("n", str(pr["i"])), pr["i"], pr.get("adt"), pr.get("ty"))
             elif kk == "index":
@@ -423,10 +440,22 @@ class Var(Expr):
 
 
 class Upvar(Expr):
-    def __init__(self, name, idx, ty=None):
+    def __init__(self, name, idx, ty=None, body=None):
         self.name = name
         self.idx = idx
         self.ty = ty
+        self.body = body
+
+    def captured(self):
+        """The expression captured for this upvar where the closure is created (in the parent
+        body), or None."""
+        b = self.body
+        if b is None:
+            return None
+        ops = b.capture_exprs()
+        if ops is not None and self.idx < len(ops):
+            return ops[self.idx]
+        return None
 
     def __str__(self):
         return "^" + self.name
